@@ -42,15 +42,19 @@ def storeSet : List (Name × Nat) → Name → Nat → List (Name × Nat)
 def ndSet (d : NDict) (k : Name) (v : Nat) : NDict :=
   updateMaxDepth { d with store := storeSet d.store k v } k
 
+/-- `self.max_depth = 0; for k in self.__store: self.__update_max_depth(k)` (entered with `max_depth_items = 0`) -/
+def recomputeDepth (d : NDict) : NDict :=
+  d.store.foldl (fun acc p => updateMaxDepth acc p.1) { d with maxDepth := 0 }
+
+/-- the bookkeeping of `__delitem__` after the key has been popped -/
+def delBook (d : NDict) (k : Name) : NDict :=
+  let d2 : NDict := if k.length = d.maxDepth then { d with maxDepthItems := d.maxDepthItems - 1 } else d
+  if d2.maxDepthItems = 0 then recomputeDepth d2 else d2
+
 /-- `__delitem__`: `self.__store.pop(key)` (KeyError = `none`), then the depth bookkeeping -/
 def ndDel (d : NDict) (k : Name) : Option NDict :=
   if !ndHas d.store k then none
-  else
-    let d1 : NDict := { d with store := d.store.filter (fun p => !nameEq p.1 k) }
-    let d2 : NDict := if k.length = d1.maxDepth then { d1 with maxDepthItems := d1.maxDepthItems - 1 } else d1
-    some (if d2.maxDepthItems = 0 then
-        d2.store.foldl (fun acc p => updateMaxDepth acc p.1) { d2 with maxDepth := 0 }
-      else d2)
+  else some (delBook { d with store := d.store.filter (fun p => !nameEq p.1 k) } k)
 
 /-- the loop `for i in range(-depth, 0): n = Name(name[i:]); if n in self: return (n, self[n])`,
 as "try the suffixes of `j`, `j-1`, …, `1` labels" -/
@@ -70,5 +74,12 @@ def ndDeepest (d : NDict) (name : Name) : Option (Name × Nat) :=
     match ndFind d.store [] with
     | some v => some ([], v)
     | none => none
+
+/-- `Name.choose_relativity(origin, relativize)`: `if origin:` is false for `None` and for the zero-label name
+(`Name.__len__`); C06's own copy, independent of the text-path models -/
+def chooseRelativity06 (n : Name) (origin : Option Name) (rel : Bool) : Except NameErr Name :=
+  match origin with
+  | none => .ok n
+  | some o => if o.length = 0 then .ok n else if rel then relativize n o else derelativize n o
 
 end Model
